@@ -77,3 +77,13 @@ Example C15_example :
   r = 2 /\ hget H' 0 = [(1, 10)] /\ hget H' 1 = [(2, 20)]
   /\ tget (hget H' r) 1 = Some 11 /\ tget (hget H' r) 2 = Some 20 /\ tget (hget H' r) 3 = Some 30.
 Proof. vm_compute. repeat split; reflexivity. Qed.
+
+(* the reducers a queue was created with reach the worker: every attribute Queue / SimpleQueue.__getstate__ ships (generated lists;
+   `_reducers` among those of the result queue, the one a worker writes to) is installed unchanged by __setstate__ in the worker's copy *)
+Theorem C15_reducers_travel_with_the_queue : forall (V : Type),
+  queue_state_installed = queue_state_shipped /\ simple_queue_state_installed = simple_queue_state_shipped
+  /\ In "_reducers"%string simple_queue_state_shipped
+  /\ (forall (o o0 : qobj V) f, In f queue_state_shipped -> install V queue_state_installed (ship V queue_state_shipped o) o0 f = o f)
+  /\ (forall (o o0 : qobj V) f, In f simple_queue_state_shipped -> install V simple_queue_state_installed (ship V simple_queue_state_shipped o) o0 f = o f).
+Proof. exact reducers_travel_with_the_queue. Qed.
+Print Assumptions C15_reducers_travel_with_the_queue.
